@@ -292,8 +292,8 @@ theorem mkp_append_sfx (cs rest : List Name) : mkp false (cs ++ rest) = mkp fals
 theorem frombase_key {cs rest : List Name} (hc : Clean cs) (hb : Clean (cs ++ rest)) :
     frombase (mkp false cs) (mkp false (cs ++ rest)) = .ok (sfx cs rest) := by
   have hpar := (isparent_mkp_iff false cs (cs ++ rest) hc hb).2 (List.prefix_append _ _)
-  simp only [frombase, hpar, Bool.not_true, Bool.false_eq_true, if_false]
-  rw [mkp_append_sfx, List.drop_left]
+  rw [mkp_append_sfx] at hpar ⊢
+  exact frombase_of_append _ _ hpar
 
 theorem relpath_sfx {cs rest : List Name} (hr : Clean rest) : relpath (sfx cs rest) = mkp false rest := by
   unfold sfx
